@@ -279,14 +279,49 @@ def run_bin(path, lines, timeout=1200, args=()):
     return p.returncode, outl, p.stderr
 
 
+def _first_crash(path, lines, timeout, args):
+    """index of the first line whose (isolated-prefix) run makes the binary die, by bisection"""
+    lo, hi = 0, len(lines)  # invariant: lines[:lo] runs fine, lines[:hi] crashes
+    while hi - lo > 1:
+        mid = (lo + hi) // 2
+        rc, out, err = run_bin(path, lines[:mid], timeout, args)
+        if rc != 0:
+            hi = mid
+        else:
+            lo = mid
+    return hi - 1
+
+
+def run_bin_robust(path, lines, timeout=1200, args=()):
+    """run_bin, but a process death (abort, signal, UB trap) on some case does not lose the other
+    cases: the crashing case gets the observation line `HARNESS-PANIC -<rc>` and the run continues."""
+    out_all, rest, base = [], list(lines), 0
+    crashes = 0
+    while rest:
+        rc, out, err = run_bin(path, rest, timeout, args)
+        if rc == 0 and len(out) == len(rest):
+            out_all += out
+            break
+        crashes += 1
+        if crashes > 4:
+            # many cases kill the process: keep the ones found, mark the rest as not run
+            out_all += ["HARNESS-PANIC -998"] * len(rest)
+            break
+        k = _first_crash(path, rest, timeout, args)
+        rc2, out2, _ = run_bin(path, rest[:k], timeout, args) if k > 0 else (0, [], "")
+        out_all += out2 + [f"HARNESS-PANIC {-abs(rc) if rc else -1}"]
+        rest = rest[k + 1:]
+    return 0, out_all, ""
+
+
 def run_bin_parallel(path, lines, shards=NCPU, timeout=1200, args=()):
     if len(lines) < 64:
-        return run_bin(path, lines, timeout, args)
+        return run_bin_robust(path, lines, timeout, args)
     k = min(shards, len(lines))
     step = (len(lines) + k - 1) // k
     parts = [lines[i:i + step] for i in range(0, len(lines), step)]
     with ThreadPoolExecutor(max_workers=k) as ex:
-        res = list(ex.map(lambda part: run_bin(path, part, timeout, args), parts))
+        res = list(ex.map(lambda part: run_bin_robust(path, part, timeout, args), parts))
     rc = max(r[0] for r in res)
     out = [l for r in res for l in r[1]]
     err = "".join(r[2] for r in res)
@@ -397,6 +432,8 @@ class Report:
         self.known = []
         self.notes = []
         self.replay_dir = ensure_dir(os.path.join(OUT, "replay"))
+        for f in glob.glob(os.path.join(self.replay_dir, f"{prop}_*.json")):
+            os.remove(f)
 
     def violation(self, name, payload, no_input=False):
         path = os.path.join(self.replay_dir, f"{self.prop}_{name}.json")
